@@ -904,3 +904,57 @@ func caseTwins(t *rapid.T, tree *m.Node, u *Universe) {
 		}
 	})
 }
+
+// bigListProgram: a program over large, unsorted list literals (95..140 elements, or 30..60 against
+// list variables of about a hundred) and list variables, through in / overlap.
+func bigListProgram(t *rapid.T) (*m.Node, *Universe) {
+	var tree *m.Node
+	var u *Universe
+	n := rapid.IntRange(95, 140).Draw(t, "biglen")
+	big := make([]int64, n)
+	for k := range big {
+		big[k] = int64((k*7919 + 13) % 1009)
+	}
+	strs := make([]string, n)
+	for k := range strs {
+		strs[k] = elemStr(big[k])
+	}
+	switch rapid.IntRange(0, 3).Draw(t, "bigkind") {
+	case 0:
+		tree = m.Op("or", m.Op("overlap", m.Const(big), m.Var("li0")), m.Var("b0"))
+	case 1:
+		tree = m.Op("and", m.Op("overlap", m.Var("ls0"), m.Const(strs)), m.Op("in", m.Var("i0"), m.Const(big)))
+	case 2:
+		tree = m.If(m.Op("in", m.Var("s0"), m.Const(strs)), m.Op("overlap", m.Var("li0"), m.Const(big)), m.Var("b0"))
+	default:
+		tree = m.Op("xor", m.Op("overlap", m.Const(strs), m.Var("ls0")), m.Op("overlap", m.Var("li1"), m.Var("li0")))
+	}
+	// in half of the cases the literal is the SHORTER operand: an unsorted literal of 30..60
+	// elements against list variables of about a hundred
+	longVars := rapid.Bool().Draw(t, "longvars")
+	if longVars {
+		k := rapid.IntRange(30, 60).Draw(t, "shortlit")
+		tree.Walk(func(x *m.Node) {
+			if x.Kind == m.KConst {
+				switch l := x.Val.(type) {
+				case []int64:
+					x.Val = append([]int64(nil), l[:k]...)
+				case []string:
+					x.Val = append([]string(nil), l[:k]...)
+				}
+			}
+		})
+	}
+	u = UniverseFor(t, tree, false)
+	if longVars {
+		for i := range u.Vars {
+			switch u.Vars[i].Ty {
+			case m.TIntList:
+				u.Vars[i].Val.X = bigInts(90 + 7*i)
+			case m.TStrList:
+				u.Vars[i].Val.X = bigStrs(95 + 5*i)
+			}
+		}
+	}
+	return tree, u
+}
